@@ -299,7 +299,7 @@ def run(ctx):
         items1.append(("plain-with-multipart-header", "plain-corrupt", hgood, exp, "sweep1"))
         items1.append(("multipart-body-without-header", "plain-corrupt", [], good, "sweep1"))
         # two responses on one zckDL: whatever the client does in between (nothing, the range set again, a reset with or without
-        # the range), the second header line and body meet the state the first response left behind (compiled patterns, boundary,
+        # the range, a rescan of the target followed by a reset and a new request), the second header line and body meet the state the first response left behind (compiled patterns, boundary,
         # carried-over bytes, the position inside the range index)
         bd2 = "Zz9" + BD[::-1]
         hsecond = [b"Content-Type: multipart/byteranges; boundary=" + bd2.encode() + b"\r\n"]
@@ -310,7 +310,7 @@ def run(ctx):
                    ("header-only", hsecond, b""), ("other-boundary-truncated", hsecond, good2[:len(good2) // 2])]
         for fn_, fh, fb in firsts:
             for sn_, sh, sb in seconds:
-                for between in (0, 1, 2, 3):
+                for between in (0, 1, 2, 3, 4):
                     for cuts in ("-", "all1"):
                         items2.append(("first=%s between=%d second=%s" % (fn_, between, sn_), "two-responses", fh, fb, cuts, (sh, sb, between)))
         ncases += len(items1) + len(items2)
